@@ -4,6 +4,8 @@ import (
 	"go/ast"
 	"go/token"
 	"go/types"
+	"sort"
+	"strings"
 
 	"verif/checker/internal/pathsim"
 	"verif/checker/internal/prog"
@@ -171,6 +173,19 @@ func init() {
 			r.checkLiteralSetsAllFields(fp, shardT, nil)
 			r.checkLiteralSetsAllFields(tp, pbT, map[string]bool{"state": true, "sizeCache": true, "unknownFields": true})
 			// cursors: Start restores them from split states; assignShards uses them
+		}})
+
+	register(&Obligation{ID: "C16.f", Props: []string{"C16"}, Template: "field-correspondence",
+		Desc: "the three Kinesis shard converters fill every destination field from its own source field: id from id, hash-range start from start and end from end, parents from BOTH ParentShardId and AdjacentParentShardId (each dereferenced under its own nil test) — a merged shard must wait for both parents, and a restored shard must describe the same shard",
+		Run: func(r *Run) {
+			fk := r.P.Func("connectors/kinesis", "newSourceSplitterShardFromKinesis")
+			fp := r.P.Func("connectors/kinesis", "newSourceSplitterShardFromProto")
+			tp := r.P.Func("connectors/kinesis", "SourceSplitterShard.toProto")
+			r.fieldCorrespondence(fk, map[string][]string{"ShardID": {"ShardId"}, "Start": {"StartingHashKey"}, "End": {"EndingHashKey"}, "ParentIDs": {"ParentShardId", "AdjacentParentShardId"}})
+			r.nilGuardedDerefs(fk)
+			r.fieldCorrespondence(fp, map[string][]string{"ShardID": {"ShardId"}, "Start": {"Start"}, "End": {"End"}, "ParentIDs": {"ParentShardIds"}})
+			r.fieldCorrespondence(tp, map[string][]string{"ShardId": {"ShardID"}, "Start": {"Start"}, "End": {"End"}, "ParentShardIds": {"ParentIDs"}})
+			r.Floor(12, "destination fields compared")
 		}})
 
 	register(&Obligation{ID: "C16.e", Props: []string{"C16", "C01"}, Template: "must-precede+value-identity",
@@ -367,4 +382,167 @@ func (r *Run) checkLiteralSetsAllFields(f *prog.FuncInfo, tn *types.TypeName, sk
 	if !found {
 		r.Error("undecided: %s no longer returns a %s literal", f.Name(), tn.Name())
 	}
+}
+
+// fieldCorrespondence: the composite literal returned by f fills destination leaf field D
+// from exactly the source fields want[D] (names of fields selected in the value expression,
+// followed through locals of f: assignments to the local, method calls on it, appends).
+// Only names in the union of want's values are considered source names.
+func (r *Run) fieldCorrespondence(f *prog.FuncInfo, want map[string][]string) {
+	info := f.Pkg.TypesInfo
+	sources := map[string]bool{}
+	for _, l := range want {
+		for _, s := range l {
+			sources[s] = true
+		}
+	}
+	var mentions func(e ast.Node, seen map[types.Object]bool, out map[string]bool)
+	flows := func(obj types.Object, seen map[types.Object]bool, out map[string]bool) {
+		ast.Inspect(f.Decl.Body, func(nd ast.Node) bool {
+			switch x := nd.(type) {
+			case *ast.AssignStmt:
+				for _, l := range x.Lhs {
+					if prog.IdentObj(info, l) == obj {
+						for _, rh := range x.Rhs {
+							mentions(rh, seen, out)
+						}
+					}
+				}
+			case *ast.CallExpr:
+				if sel, ok := ast.Unparen(x.Fun).(*ast.SelectorExpr); ok && prog.IdentObj(info, sel.X) == obj {
+					for _, a := range x.Args {
+						mentions(a, seen, out)
+					}
+				}
+			}
+			return true
+		})
+	}
+	mentions = func(e ast.Node, seen map[types.Object]bool, out map[string]bool) {
+		ast.Inspect(e, func(nd ast.Node) bool {
+			switch x := nd.(type) {
+			case *ast.SelectorExpr:
+				if v, ok := info.Uses[x.Sel].(*types.Var); ok && v.IsField() && sources[v.Name()] {
+					out[v.Name()] = true
+				}
+				if fn, ok := info.Uses[x.Sel].(*types.Func); ok && len(fn.Name()) > 3 && fn.Name()[:3] == "Get" && sources[fn.Name()[3:]] {
+					out[fn.Name()[3:]] = true // generated protobuf getter
+				}
+			case *ast.Ident:
+				if v, ok := info.Uses[x].(*types.Var); ok && !v.IsField() && v.Pos() > f.Decl.Body.Pos() && v.Pos() < f.Decl.Body.End() && !seen[v] {
+					seen[v] = true
+					flows(v, seen, out)
+				}
+			}
+			return true
+		})
+	}
+	var lit *ast.CompositeLit
+	ast.Inspect(f.Decl.Body, func(nd ast.Node) bool {
+		if rs, ok := nd.(*ast.ReturnStmt); ok && len(rs.Results) >= 1 && lit == nil {
+			e := ast.Unparen(rs.Results[0])
+			if u, ok := e.(*ast.UnaryExpr); ok && u.Op == token.AND {
+				e = u.X
+			}
+			if cl, ok := e.(*ast.CompositeLit); ok {
+				lit = cl
+			}
+		}
+		return true
+	})
+	if lit == nil {
+		r.Error("undecided: %s no longer returns a composite literal", f.Name())
+		return
+	}
+	got := map[string]map[string]bool{}
+	var walk func(cl *ast.CompositeLit)
+	walk = func(cl *ast.CompositeLit) {
+		for _, el := range cl.Elts {
+			kv, ok := el.(*ast.KeyValueExpr)
+			if !ok {
+				continue
+			}
+			id, ok := kv.Key.(*ast.Ident)
+			if !ok {
+				continue
+			}
+			v := ast.Unparen(kv.Value)
+			if u, ok := v.(*ast.UnaryExpr); ok && u.Op == token.AND {
+				v = u.X
+			}
+			if inner, ok := v.(*ast.CompositeLit); ok {
+				walk(inner)
+				continue
+			}
+			m := map[string]bool{}
+			mentions(kv.Value, map[types.Object]bool{}, m)
+			got[id.Name] = m
+			r.Site(kv.Pos(), f.Name()+": "+id.Name+" <- "+joinSet(m))
+		}
+	}
+	walk(lit)
+	for d, ws := range want {
+		g, ok := got[d]
+		if !ok {
+			r.Fail(f.Name()+":corr:"+d, lit.Pos(), nil, "%s does not fill %s", f.Name(), d)
+			continue
+		}
+		same := len(g) == len(ws)
+		for _, w := range ws {
+			if !g[w] {
+				same = false
+			}
+		}
+		if !same {
+			r.Fail(f.Name()+":corr:"+d, lit.Pos(), nil, "%s fills %s from {%s}; it must be filled from exactly {%s} (a wrong or missing operand here changes which shard / hash range / parents a split stands for)", f.Name(), d, joinSet(g), strings.Join(ws, ","))
+		}
+	}
+}
+
+func joinSet(m map[string]bool) string {
+	var l []string
+	for k := range m {
+		l = append(l, k)
+	}
+	sort.Strings(l)
+	return strings.Join(l, ",")
+}
+
+// nilGuardedDerefs: inside f, every `*x.F` dereference that sits in the body of an
+// `if x.G != nil` uses the guarded field itself (F == G).
+func (r *Run) nilGuardedDerefs(f *prog.FuncInfo) {
+	info := f.Pkg.TypesInfo
+	ast.Inspect(f.Decl.Body, func(nd ast.Node) bool {
+		is, ok := nd.(*ast.IfStmt)
+		if !ok {
+			return true
+		}
+		be, ok := ast.Unparen(is.Cond).(*ast.BinaryExpr)
+		if !ok || be.Op != token.NEQ {
+			return true
+		}
+		if id, ok := ast.Unparen(be.Y).(*ast.Ident); !ok || id.Name != "nil" {
+			return true
+		}
+		g := prog.SelField(info, be.X)
+		if g == nil {
+			return true
+		}
+		ast.Inspect(is.Body, func(m ast.Node) bool {
+			st, ok := m.(*ast.StarExpr)
+			if !ok {
+				return true
+			}
+			fl := prog.SelField(info, st.X)
+			if fl == nil {
+				return true
+			}
+			r.Site(st.Pos(), f.Name()+": *"+fl.Name()+" under the nil test of "+g.Name())
+			if fl != g && types.Identical(fl.Type(), g.Type()) {
+				r.Fail(f.Name()+":guarded-deref:"+g.Name(), st.Pos(), nil, "the branch guarded by %s != nil dereferences %s instead: %s is never recorded (and %s may be nil here)", g.Name(), fl.Name(), g.Name(), fl.Name())
+			}
+			return true
+		})
+		return true
+	})
 }
